@@ -582,16 +582,21 @@ func (i *IRCServer) GetNick(sessionid robust.Id) string {
 	return ""
 }
 
-// ThrottleUntil returns the last activity of |sessionid| or the zero time.
-func (i *IRCServer) ThrottleUntil(sessionid robust.Id) time.Time {
+func (i *IRCServer) postMessageCooloff() time.Duration {
 	i.ConfigMu.RLock()
 	defer i.ConfigMu.RUnlock()
-	cooloff := time.Duration(i.Config.PostMessageCooloff)
+	return time.Duration(i.Config.PostMessageCooloff)
+}
+
+// ThrottleUntil returns the last activity of |sessionid| or the zero time.
+func (i *IRCServer) ThrottleUntil(sessionid robust.Id) time.Time {
+	cooloff := i.postMessageCooloff()
 	if cooloff == 0 {
 		return time.Time{}
 	}
-	i.sessionsMu.RLock()
-	defer i.sessionsMu.RUnlock()
+	// throttlingExponent is modified below, so the read lock is not enough.
+	i.sessionsMu.Lock()
+	defer i.sessionsMu.Unlock()
 
 	if s, ok := i.sessions[sessionid]; ok && !s.Server {
 		// Reset throttlingExponent when the session was idle long enough.
